@@ -71,7 +71,8 @@ def run(ctx):
     calls_f, sample_f = ctx.path("calls.ndjson"), ctx.path("sample.ndjson")
     out = ctx.harness(binary, ["-plans", pdir, "-out", calls_f, "-sample", sample_f, "-seed", ctx.seed,
                                "-rand", ctx.q(300, 5000), "-guess", ctx.q(100, 1500),
-                               "-maxops", ctx.q(60, 150), "-nsample", ctx.q(1, 4)],
+                               "-maxops", ctx.q(60, 150), "-nsample", ctx.q(1, 4),
+                               "-twin", ctx.q(60, 800)],
                       traces=[calls_f, sample_f])
     # 4. validate what the real code did
     calls = ctx.load_traces(calls_f)
